@@ -18,9 +18,13 @@ pub enum Shape {
     Mixed,
     /// the nested collection sits in map-key position (MessagePack; YAML flow keys)
     KeyPosition,
+    /// arrays whose innermost one is empty (no scalar at the bottom)
+    HollowArrays,
+    /// maps whose innermost one is empty
+    HollowMaps,
 }
 
-pub const SHAPES: [Shape; 5] = [Shape::Arrays, Shape::Maps, Shape::Alternating, Shape::Mixed, Shape::KeyPosition];
+pub const SHAPES: [Shape; 7] = [Shape::Arrays, Shape::Maps, Shape::Alternating, Shape::Mixed, Shape::KeyPosition, Shape::HollowArrays, Shape::HollowMaps];
 
 impl Shape {
     pub fn name(self) -> &'static str {
@@ -30,6 +34,8 @@ impl Shape {
             Shape::Alternating => "alternating",
             Shape::Mixed => "mixed",
             Shape::KeyPosition => "key_position",
+            Shape::HollowArrays => "hollow_arrays",
+            Shape::HollowMaps => "hollow_maps",
         }
     }
     pub fn from_name(s: &str) -> Option<Shape> {
@@ -38,8 +44,8 @@ impl Shape {
     /// is level `i` (0 = outermost) a map?
     fn is_map(self, i: usize, depth: usize) -> bool {
         match self {
-            Shape::Arrays => false,
-            Shape::Maps | Shape::KeyPosition => true,
+            Shape::Arrays | Shape::HollowArrays => false,
+            Shape::Maps | Shape::KeyPosition | Shape::HollowMaps => true,
             Shape::Alternating => i % 2 == 0,
             Shape::Mixed => {
                 let _ = depth;
@@ -60,6 +66,9 @@ pub fn nested(fmt: Fmt, shape: Shape, depth: usize) -> Option<Vec<u8>> {
 pub fn nested_w(fmt: Fmt, shape: Shape, depth: usize, width: u8) -> Option<Vec<u8>> {
     if depth == 0 {
         return None;
+    }
+    if matches!(shape, Shape::HollowArrays | Shape::HollowMaps) {
+        return hollow(fmt, shape == Shape::HollowMaps, depth, width);
     }
     let mut out: Vec<u8> = vec![];
     match fmt {
@@ -134,6 +143,71 @@ pub fn nested_w(fmt: Fmt, shape: Shape, depth: usize, width: u8) -> Option<Vec<u
             out.push(b'1');
             for i in (1..depth).rev() {
                 out.push(if shape.is_map(i, depth) { b'}' } else { b']' });
+            }
+            out.push(b'\n');
+        }
+    }
+    Some(out)
+}
+
+/// `depth` collections of one kind, the innermost one empty.
+fn hollow(fmt: Fmt, map: bool, depth: usize, width: u8) -> Option<Vec<u8>> {
+    let mut out: Vec<u8> = vec![];
+    match fmt {
+        Fmt::Json | Fmt::Yaml => {
+            if fmt == Fmt::Yaml {
+                out.extend_from_slice(b"--- ");
+            }
+            for i in 0..depth {
+                let last = i + 1 == depth;
+                match (map, last, fmt) {
+                    (true, false, Fmt::Json) => out.extend_from_slice(b"{\"k\":"),
+                    (true, false, _) => out.extend_from_slice(b"{k: "),
+                    (true, true, _) => out.push(b'{'),
+                    (false, _, _) => out.push(b'['),
+                }
+            }
+            for _ in 0..depth {
+                out.push(if map { b'}' } else { b']' });
+            }
+            if fmt == Fmt::Yaml {
+                out.push(b'\n');
+            }
+        }
+        Fmt::Msgpack => {
+            for i in 0..depth {
+                let last = i + 1 == depth;
+                let w = if width == 3 { (i % 3) as u8 } else { width };
+                let n: u8 = if last { 0 } else { 1 };
+                match (map, w) {
+                    (true, 0) => out.push(0x80 | n),
+                    (true, 1) => out.extend_from_slice(&[0xde, 0, n]),
+                    (true, _) => out.extend_from_slice(&[0xdf, 0, 0, 0, n]),
+                    (false, 0) => out.push(0x90 | n),
+                    (false, 1) => out.extend_from_slice(&[0xdc, 0, n]),
+                    (false, _) => out.extend_from_slice(&[0xdd, 0, 0, 0, n]),
+                }
+                if map && !last {
+                    out.extend_from_slice(b"\xa1k");
+                }
+            }
+        }
+        Fmt::Toml => {
+            // the root table is level 0
+            if depth == 1 {
+                return Some(vec![]);
+            }
+            out.extend_from_slice(b"k = ");
+            for i in 1..depth {
+                let last = i + 1 == depth;
+                match (map, last) {
+                    (true, false) => out.extend_from_slice(b"{k = "),
+                    (true, true) => out.push(b'{'),
+                    (false, _) => out.push(b'['),
+                }
+            }
+            for _ in 1..depth {
+                out.push(if map { b'}' } else { b']' });
             }
             out.push(b'\n');
         }
